@@ -26,6 +26,13 @@ def extras(rng, b):
             extras(rng, it[2])
     if "colorrange" in props and rng.random() < .5 and not any(len(it) > 1 and it[1] == "colorrange" for it in b.items):
         b.items.append(("attr", "colorrange", ["#0000ff", "#ff0000"], [("#0000ff", "qstr"), ("#ff0000", "qstr")], "hexcolorrange"))
+    # expressions from C10's generator (random operator trees with redundant parentheses; regular expressions as operands)
+    for k in ("expression", "filter"):
+        if k in props and rng.random() < .5 and not any(len(it) > 1 and it[1] == k for it in b.items):
+            from props import C10
+            t = C10.rand_tree(rng, rng.randint(1, 6))
+            src = "(" + " ".join(C10.render(rng, t)) + ")"
+            b.items.append(("attr", k, src, [(src, "raw")], "expression"))
     for k in ("text", "expression", "filter"):
         if k in props and rng.random() < .35 and not any(len(it) > 1 and it[1] == k for it in b.items):
             body = rng.choice(['a\\\\"b', 'say \\"hi\\"', "it\\'s", 'x\\\\\\"y', "plain text", 'tab\\there'])
@@ -46,6 +53,12 @@ def explore(ctx, scale=1.0):
         b = gen.gen_block(rng, rng.choice(gen.BLOCK_TYPES + ["map", "layer", "class", "style", "label"]), depth=rng.choice([0, 1, 2]), max_items=8)
         extras(rng, b)
         docs.append((gen.render(b), "generated"))
+    # small documents that are all expression (C10's random operator trees: divisions, regular expressions, redundant parentheses)
+    from props import C10
+    for i in range(int((2000 if ctx.thorough else 250) * scale)):
+        t = C10.rand_tree(rng, rng.randint(2, 9))
+        src = "(" + " ".join(C10.render(rng, t)) + ")"
+        docs.append((rng.choice(["CLASS\n  EXPRESSION %s\nEND", "LAYER\n  FILTER %s\nEND", "CLASS\n  TEXT %s\nEND"]) % src, "expression"))
     P = trees.parser(False, False)
     n_sets = 40 if ctx.thorough else 6
     pp_cases = []
@@ -57,7 +70,7 @@ def explore(ctx, scale=1.0):
             continue
         if isinstance(d0, list):
             continue
-        for o in ppcommon.sample_option_sets(rng, n_sets, newline_space=True):
+        for o in ppcommon.sample_option_sets(rng, 2 if kind == "expression" and not ctx.thorough else n_sets, newline_space=True):
             if ppcommon.has_quote_conflict(gen.plain_dict(d0), o["quote"]):
                 ctx.count("documented exclusion: value holds the output quote")
                 continue
